@@ -29,11 +29,14 @@ namespace Res
 instance : Monad Res where
   pure := .ok
   bind := Res.bind
-@[simp] theorem bind_ok {α β} (a : α) (f : α → Res β) : (Res.ok a >>= f) = f a := rfl
-@[simp] theorem bind_panic {α β} (f : α → Res β) : ((Res.panic : Res α) >>= f) = .panic := rfl
-@[simp] theorem bind_oob {α β} (f : α → Res β) : ((Res.oob : Res α) >>= f) = .oob := rfl
-@[simp] theorem bind_ub {α β} (f : α → Res β) : ((Res.ub : Res α) >>= f) = .ub := rfl
-@[simp] theorem pure_eq {α} (a : α) : (pure a : Res α) = .ok a := rfl
+-- NOTE: deliberately NOT `rfl`-shaped proofs. A `rfl` simp lemma is applied by `dsimp`, whose result the kernel
+-- re-checks by definitional unfolding of the whole goal; with 2^32 / 2^64 literals under `if` conditions that
+-- unfolding peels the literals in unary (minutes, then "deep recursion"). Propositional rewriting avoids it.
+@[simp] theorem bind_ok {α β} (a : α) (f : α → Res β) : (Res.ok a >>= f) = f a := Eq.trans rfl rfl
+@[simp] theorem bind_panic {α β} (f : α → Res β) : ((Res.panic : Res α) >>= f) = .panic := Eq.trans rfl rfl
+@[simp] theorem bind_oob {α β} (f : α → Res β) : ((Res.oob : Res α) >>= f) = .oob := Eq.trans rfl rfl
+@[simp] theorem bind_ub {α β} (f : α → Res β) : ((Res.ub : Res α) >>= f) = .ub := Eq.trans rfl rfl
+@[simp] theorem pure_eq {α} (a : α) : (pure a : Res α) = .ok a := Eq.trans rfl rfl
 def isOk {α} : Res α → Bool | .ok _ => true | _ => false
 end Res
 
